@@ -35,6 +35,11 @@ func init() {
 }
 
 func runParallel(fm *Frame, functions ...Callable) error {
+	for _, function := range functions {
+		if function == nil {
+			return errs.BadValue{What: "function", Valid: "function", Actual: "$nil"}
+		}
+	}
 	var wg sync.WaitGroup
 	wg.Add(len(functions))
 	exceptions := make([]Exception, len(functions))
@@ -57,6 +62,9 @@ func runParallel(fm *Frame, functions ...Callable) error {
 }
 
 func each(fm *Frame, f Callable, inputs Inputs) error {
+	if f == nil {
+		return errs.BadValue{What: "function", Valid: "function", Actual: "$nil"}
+	}
 	broken := false
 	var err error
 	inputs(func(v any) {
@@ -86,6 +94,9 @@ type peachOpt struct{ NumWorkers vals.Num }
 func (o *peachOpt) SetDefaultOptions() { o.NumWorkers = math.Inf(1) }
 
 func peach(fm *Frame, opts peachOpt, f Callable, inputs Inputs) error {
+	if f == nil {
+		return errs.BadValue{What: "function", Valid: "function", Actual: "$nil"}
+	}
 	var wg sync.WaitGroup
 	var broken int32
 	var errMu sync.Mutex
@@ -217,6 +228,9 @@ func continueFn() error {
 var errDeferNotInClosure = errors.New("defer must be called from within a closure")
 
 func deferFn(fm *Frame, fn Callable) error {
+	if fn == nil {
+		return errs.BadValue{What: "function", Valid: "function", Actual: "$nil"}
+	}
 	if fm.defers == nil {
 		return errDeferNotInClosure
 	}
